@@ -204,6 +204,51 @@ CLAIMS = {
        "The render/dc tables are read through go:linkname (no verif export exists). Three genuine defects are recorded in "
        "known_findings.json (V2 drops a proper triangle together with a degenerate one -> hole; V2 and V1 emit zero-area "
        "triangles)."),
+ "C20": dict(
+  text="Delaunay.tla defines DT(P) with exact integer Orient/InCircle determinants; DelaunayM.tla enumerates every point set in "
+       "general position of 3..5 points on a 5x5 grid (quick: n=3 exhaustive, n=4,5 and 6 points on 6x6 LCG-sampled) in several "
+       "input orders and checks |DT| = 2n-2-h, DT triangulates the hull, area(DT) = area(hull). TriSet.tla transcribes "
+       "TriangleI.Canonical, TriangleIByIndex.Less as written, Go's insertion sort and TriangleISet.Equals; TriSetM.tla checks "
+       "whether the comparator is a strict total order on the canonical triples over 5..7 indices and whether Equals accepts every "
+       "permuted and rotated copy of every set of up to 3 (sampled: 4..6) triangles. BowyerWatson.tla runs the incremental algorithm "
+       "as Delaunay2d writes it (x-sorted insertion in three tie orders, symbolic super triangle with polynomial-in-k arithmetic, done "
+       "flags with the early-out, copy-the-tail removal, edge buffer with duplicate cancellation, super-triangle removal) on sampled "
+       "grid sets with the invariant result = DT(P) at termination. Every exported point set runs through the real "
+       "Delaunay2d and Delaunay2dSlow, every triangle set through the real Equals against all its permutations, every ordered pair "
+       "of canonical triples through the real Less; DelTrace.tla judges result = DT(P), fast = slow as sets, 2n-2-h, Equals true "
+       "exactly for equal multisets of canonical triples, comparator a strict total order. Seeded random real point sets "
+       "(10..300 points; uniform, clustered, near-collinear hulls, rings, aspect ratios to 1000, offsets to 1000 extents, scales "
+       "1e-2..1e4) are measured with exact math/big predicates and judged by the same trace spec from counts.",
+  design_ref="DESIGN.md section 6 C20 and section 9", technique="TLC enumeration of exact grid cases and triangle sets + replay into the real code + TLC trace validation; random real sets measured exactly and judged by TLC",
+  note=TB + " Grid cases are exhaustive within the stated bounds (thorough tier); real-valued sets are seeded samples; cases with a point "
+       "within 1e-9 (relative) of a result circumcircle are not judged. Four defect classes of the pinned tree are recorded in "
+       "known_findings.json (Less not a strict weak order; Equals order-dependent; hull slivers beyond the finite super triangle "
+       "omitted; absolute epsilon in InCircumcircle at small scales)."),
+ "C16": dict(
+  text="BoxDistM.tla enumerates every integer box in [0..4]^d with every point of [-2..6]^d (2D and 3D: all 9 / 27 position "
+       "classes, faces, edges and corners themselves; quick tier 3D: [0..3]^3 x [-2..5]^3), cross-checks the definition (clamp / "
+       "farthest corner) against brute force and compares it with the transcription of Box2/Box3.MinMaxDist2 as written; "
+       "OverlapM.tla does the same for Interval.Overlap vs 'share a value'; UnionM.tla enumerates operand sets (archetype x "
+       "every placement of a second box/circle in both orders, plus LCG-drawn sets of 2-3 operands: nested, equal, far apart) x "
+       "{min, PolyMin(k), k in 1/2, 3, 12} and evaluates the transcription of UnionSDF2.Evaluate against the minimum over all "
+       "operands in outward-rounded exact arithmetic. Every exported case is executed on the real MinMaxDist2 / Overlap / "
+       "Union2D(...).Evaluate / (*UnionSDF2).EvaluateSlow at every window point, seeded random dyadic and float boxes and real "
+       "operand sets are added, and BoxTrace.tla / UnionTrace.tla judge each real observation against the definition.",
+  design_ref="DESIGN.md section 6 C16 and section 9", technique="TLC exhaustive lattice enumeration + replay into the real functions + TLC trace validation (definition as oracle; code transcription as drift)",
+  note=TB + " Two genuine defects found on the unchanged tree are listed in known_findings.json (Box3 edge regions; pruning under a blend); "
+       "sign equality under a blend is decided only where the sign is certain (|value| > 1e-9)."),
+ "C04": dict(
+  text="PolygonM.tla builds every simple lattice polygon with <= 4 (thorough: 5) vertices on a 4x4 (thorough also 5x5) vertex "
+       "grid, collinear vertices allowed, both orientations exported, and every hole-free polyomino outline with its collinear "
+       "vertices (perimeter <= 10 / 12); at every half-lattice point of the bounding box enlarged by one unit TLC checks that "
+       "three independently written inside definitions agree and exports the exact rational squared distances. Each polygon is "
+       "evaluated by the real Polygon2D, Mesh2D and Mesh2DSlow at every such point and at probes taken from the real quadtree "
+       "((*MeshSDF2).Boxes(): corners, split lines, split line x vertex level, +-1 ulp); seeded random star / thin / many-vertex / "
+       "staircase polygons (some with vertices moved onto their own split lines) are probed level with vertices and on split "
+       "lines. PolyTrace.tla recomputes Inside and D2 exactly and judges sign, distance (2e-9) and quadtree vs brute force.",
+  design_ref="DESIGN.md section 6 C04", technique="TLC state-machine enumeration of simple lattice polygons + replay into the real polygon SDFs + TLC trace validation; real-valued probes measured against an exact-orientation brute force",
+  note=TB + " Real-valued probe points (quadtree split lines are not lattice points) are judged against the harness's brute force, "
+       "not against a TLC-computed value. Two genuine defect classes of the quadtree winding are listed in known_findings.json."),
 }
 
 NOT_APPLICABLE = {}
